@@ -99,9 +99,14 @@ def run(ctx, rep):
                 rep.case("position/" + ev["d"], (ev["d"], text), any(ord(ch) > 126 or ord(ch) < 32 and ch not in "\n\r" for ch in text))
                 case = {"config": ev["d"], "text": text}
                 locus = "position"
-            if not v["fails"]:
+            fails = list(v["fails"])
+            if ev["ev"] == "load" and not fails and "o" in v:
+                ref = loaders.ref_outcome(v["o"])
+                if ref["verdict"] == "accept" and det["kind"] == "module" and loaders.canon(det["tree"]) != loaders.canon(ref["tree"]):
+                    fails.append("characters-not-returned-unchanged")
+            if not fails:
                 rep.traces_validated += 1
-            for clause in v["fails"][:1]:
+            for clause in fails[:1]:
                 rep.fail({"config": ev["d"], "locus": locus, "observed": clause}, case, {"event": {k: ev[k] for k in ev if k != "text"}, "observed": det})
     rep.coverage_extra["code_points_checked_against_table"] = npts
     rep.sample({"range_event": ranges[1], "position_case": {"text": loaders.cps(r.printed[7]["text"]), "cp": r.printed[7]["cp"]}})
